@@ -55,7 +55,8 @@ class AcyclicModel:
 def gen_model(rng, n_inputs=4, n_formulas=6, sheets=('Sheet1',),
               with_ranges=True, with_if=True, values=None, max_depth=None):
     """Inputs live in column A.. of each sheet (rows 1..), formulas in column
-    C.. ; ranges are rectangles over the input block (column A:B)."""
+    D ; ranges are rectangles over the input block (column A:B) or column
+    ranges over formula cells created earlier."""
     global ABS_RNG
     ABS_RNG = rng
     m = AcyclicModel()
@@ -91,7 +92,26 @@ def gen_model(rng, n_inputs=4, n_formulas=6, sheets=('Sheet1',),
                 return R(k, s)
             return lit(rng.choice([1, 2, 3, 0.5, 10]))
         shape = rng.random()
-        if with_ranges and shape < 0.25:
+        over_formulas = [x for x in sheets
+                         if frow[x] - (1 if x == s else 0) >= 1]
+        if with_ranges and shape < 0.08 and over_formulas:
+            # a column range over formula cells created earlier (column D)
+            rs = rng.choice(over_formulas)
+            maxr = frow[rs] - (1 if rs == s else 0)
+            r1 = rng.randint(1, maxr)
+            r2 = rng.randint(r1, maxr)
+            for rr in range(r1, r2 + 1):
+                deps.add((rs, 4, rr))
+            fl = FALSE4 if rng.random() < 0.6 else tuple(
+                rng.random() < 0.5 for _ in range(4))
+            rg = ('rng', rs if rs != s else None, 4, r1, 4, r2, fl)
+            f = rng.choice(['SUM', 'SUM', 'MAX', 'MIN', 'COUNT'])
+            ast = ('call', f, [rg])
+            if f in ('MAX', 'MIN'):
+                ast = ('call', f, [rg, operand()])
+            if rng.random() < 0.5:
+                ast = ('bin', rng.choice(['+', '-', '*']), ast, operand())
+        elif with_ranges and shape < 0.25:
             # a rectangle over the input block of some sheet
             rs = rng.choice([x for x in sheets if rows[x] > 0])
             maxr = max(1, rows[rs])
